@@ -49,8 +49,8 @@ m = {
     },
     "engines": [{"name": "xsim", "path": "/verif/xsim", "serves_properties": sorted(PROPS.keys()),
                  "kind_free_text": "deterministic simulator: real pthreads released one at a time at every atomic access (TSan ABI seam), "
-                                   "seeded scheduler strategies (uniform/sticky/PCT/burst/solo probes), view-based C++17 weak memory model, "
-                                   "vector-clock data-race + lifetime monitor, deterministic arena heap, replay + ddmin minimiser"}],
+                                   "seeded scheduler strategies (uniform/sticky/PCT/burst/stall injection at code sites/solo probes), view-based C++17 weak memory model, "
+                                   "vector-clock data-race + lifetime monitor, deterministic arena heap with optional block reuse (ABA fault), replay + ddmin minimiser"}],
     "checks": checks,
     "not_applicable": na,
     "notes": "All checks: ./check <ID> quick|thorough, exit 0/1/2 (2 = machinery failure, e.g. litmus self-test or determinism gate). "
